@@ -14,6 +14,13 @@ pub static CLOCK_US: AtomicI64 = AtomicI64::new(0);
 /// 2026-01-01T00:00:00Z
 pub const EPOCH_S: i64 = 1_767_225_600;
 
+/// Global event sequence number as of the last scheduling point / stamp (readable without the scheduler lock).
+pub static SEQ_NOW: std::sync::atomic::AtomicU64 = std::sync::atomic::AtomicU64::new(0);
+
+pub fn seq_now() -> u64 {
+    SEQ_NOW.load(Ordering::SeqCst)
+}
+
 pub fn now_us() -> i64 {
     CLOCK_US.load(Ordering::SeqCst)
 }
@@ -282,6 +289,7 @@ pub fn point(site: Site) {
     st.last_progress = std::time::Instant::now();
     st.steps += 1;
     st.seq += 1;
+    SEQ_NOW.store(st.seq, Ordering::SeqCst);
     st.trace.push((me as u8, site as u8));
     if st.steps > st.max_steps {
         st.overrun = true;
@@ -346,6 +354,7 @@ pub fn stamp() -> u64 {
     match g.as_mut() {
         Some(st) => {
             st.seq += 1;
+            SEQ_NOW.store(st.seq, Ordering::SeqCst);
             st.seq
         }
         None => 0,
